@@ -72,12 +72,15 @@ class PayoutMonitor(Monitor):
         live = self.live if self.live is not None else list(state.statuses)
         hole = self.hole if self.hole is not None else [
             list(h) for h in state.hole_cards]
-        if any(not c for i, h in enumerate(hole) if live[i] for c in h):
-            ctx.counters['skipped_unknown_cards'] += 1
-            return
         tabled = getattr(self, 'up', None)
         if self.live is None or tabled is None:
             tabled = hole
+        # (cards kept face down do not play and may be unknown placeholders;
+        # only an unknown card among the TABLED ones makes the hand
+        # unjudgeable)
+        if any(not c for i, h in enumerate(tabled) if live[i] for c in h):
+            ctx.counters['skipped_unknown_cards'] += 1
+            return
         vs, pots, facts = payout.check(state, live, tabled)
         for x in vs[:4]:
             ctx.violate(x)
@@ -146,10 +149,17 @@ def pol_tweak(pol, cfg, rng):
         cfg['mode'] = 'CASH_GAME'
         cfg['autos'] = [a for a in cfg['autos']
                         if a != 'HOLE_CARDS_SHOWING_OR_MUCKING']
+        if rng.random() < 0.6:
+            # ... on boards that play (a hand kept face down ties with it)
+            pol['deal'] = 'rigged'
+            cfg['autos'] = [a for a in cfg['autos']
+                            if a not in ('HOLE_DEALING', 'BOARD_DEALING')]
     if rng.random() < 0.4:
         pol['fork_p'] = 0.03     # continue on a deepcopy mid-hand
     pol['policy'] = rng.choice(['passive', 'passive', 'aggressive', 'allin',
                                 'uniform'])
+    if pol.get('empty_show'):
+        pol['policy'] = 'passive'
 
 
 def nontrivial(ctx):
